@@ -140,6 +140,10 @@ def run_shard_main(pid, descfile, outfile):
                                      + traceback.format_exc()[-400:])
                     ctx.count("regression_cases_unreplayable")
         else:
+            if desc.get("shard", 0) % 2 == 1 and getattr(prop, "PROVOKE_FAILURES", True):
+                from . import harness
+                n = harness.provoke_failures()
+                ctx.count("failing_calls_made_before_the_workload", n)
             prop.run_shard(desc, ctx)
     except BaseException:
         ctx.notes.append("shard crashed: " + traceback.format_exc()[-1500:])
@@ -164,7 +168,7 @@ def run_shards(pid, descs, workdir):
     env.setdefault("POLARS_MAX_THREADS", "1")
     # the library's results must not depend on the string-hash seed: shards run under different (fixed) seeds,
     # shard 0 under seed 0; a violation records the seed it was seen under and --replay re-runs under it
-    hashseeds = ["0", "1", "7", "4242", "977", "31337", "2", "65537"]
+    hashseeds = [str(k) for k in range(24)] + ["4242", "977", "31337", "65537"]
 
     def worker():
         while True:
